@@ -262,11 +262,13 @@ PROPS = {
                 "contiguous run of items; a block interrupted by an undeclared item must fail. "
                 + DISTINCT,
         "assumptions": COMMON_ASSUMPTIONS + [
-            "Adjacent subcommand chains are exercised by C04 only.",
+            "Adjacent subcommand chains are checked on sentences only (value per command in "
+            "command-line order); broken chains are not generated.",
         ],
         "must_observe": ["class:contiguous-blocks:1", "class:contiguous-blocks:2",
                          "class:broken:interrupted-by-foreign-item",
-                         "class:broken:required-member-moved-away"],
+                         "class:broken:required-member-moved-away",
+                         "adjacent-command-chain:2"],
         "needs_hooks": True,
         "technique": "runtime monitoring: derivation-directed oracle + contiguity checker over "
                      "unique tokens of every returned block value",
